@@ -89,8 +89,30 @@ type runOut struct {
 	viol  []string
 }
 
+// reattachOK: the program of the current run creates no coroutines. Coroutines created before a context is attached
+// are promised nothing about it, so the context is replaced in mid-run only under programs without coroutines
+// (set per run; workers are single-threaded).
+var reattachOK bool
+
+func setReattachOK(prog *ir.Program) {
+	reattachOK = true
+	for f := range prog.Features {
+		for _, w := range []string{"corout", "wrap", "resume", "yield", "generation"} {
+			if strings.Contains(f, w) {
+				reattachOK = false
+			}
+		}
+	}
+}
+
 func execVM(proto *lua.FunctionProto, ov optVariant, kind int, at int64, maxSteps int64, withCtx bool) *runOut {
-	h := hostapi.NewHost(hostapi.Options{LuaOptions: ov.o, Kind: kind, At: at, MaxSteps: maxSteps, WithContext: withCtx})
+	var reattach int64
+	if kind == hostapi.VCancel && at%2 == 0 && reattachOK {
+		// every second cancellation point: the host replaces the context in mid-run (at the first or second host
+		// call of the main thread); the cancellation then arrives through the new context
+		reattach = 1 + (at/2)%2
+	}
+	h := hostapi.NewHost(hostapi.Options{LuaOptions: ov.o, Kind: kind, At: at, MaxSteps: maxSteps, WithContext: withCtx, ReattachAtHostCall: reattach})
 	h.Entry, h.EntryJunk = ov.entry, ov.junk
 	out := h.RunProto(proto)
 	r := &runOut{trace: h.Trace, out: out, h: h, viol: h.Violations}
@@ -192,6 +214,7 @@ func (e *Engine) Run(t *core.Tape, cfg *core.Config, st *core.Stats) *core.Viola
 	if err != nil {
 		return core.Violationf("rejects-valid", "generated program does not compile: %v\n%s", err, src)
 	}
+	setReattachOK(prog)
 	for f, n := range prog.Features {
 		st.ProbeN("feature_"+f, n)
 	}
@@ -470,6 +493,7 @@ func DebugFault(profile string, draws []uint32, aux []int64) {
 	t := core.ReplayTape(draws)
 	prof := ir.ProfileFor(profile)
 	prog := ir.Generate(t, prof)
+	setReattachOK(prog)
 	lay := ir.DrawLayout(t)
 	ov := drawOptions(t)
 	src := ir.Render(prog, lay).Source
